@@ -170,6 +170,7 @@ def OpOK (env : Env) (N S : Nat) (ak : AutKeys) (P : Pool) : XOp → Prop
   | .dotCt d as bs => ∀ cs ds, getAll P d as = some cs → getAll P d bs = some ds → cs.length = 1 ∨ dotUniform cs ds = false
   | .conj _ _ => ∃ key, ak.conj = some key
   | .conjAssign _ => ∃ key, ak.conj = some key
+  | .mulMany _ _ => False
   | _ => True
 
 theorem getAll_of_dgetAll (pool : DPool) (d : Nat) : ∀ (as : List Nat) (xs : List DCt), dgetAll pool d as = some xs →
@@ -343,6 +344,7 @@ theorem xadm_numeric {env : Env} (he : EnvOK env) {N S : Nat} (hN : 0 < N) {mk :
     obtain ⟨hbk, ha1⟩ := mulPtZnx_facts he.lo hpm
     exact mulPt_hhi he.lo hbk hq ha1
   | addMany d as => trivial
+  | mulMany d as => exact hop.elim
   | dotCt d as bs =>
     refine ⟨fun xs ys hxs hys => ?_, fun cd hd ab hab ca cb ha hb dd hdd hds mt hmi q hq => ?_⟩
     · have := hop (xs.map DCt.ct) (ys.map DCt.ct) (getAll_of_dgetAll pool d as xs hxs) (getAll_of_dgetAll pool d bs ys hys)
